@@ -3,7 +3,7 @@
    The definitions are those of Model/C18.v, the same ones the correspondence evaluates against
    partitura/musicanalysis/performance_codec.py on every run. *)
 From Coq Require Import ZArith QArith Qabs List Sorting.Sorted Sorting.Permutation Reals.
-From PV Require Import Lib.Base Lib.Round Model.C18 Model.C18_Check Proofs.C18 Proofs.C18_spec Proofs.C18_tempo Proofs.C18_real Proofs.C18_glue Gen.C18_norm Proofs.C18_norm Model.C18_Hist Proofs.C18_hist.
+From PV Require Import Lib.Base Lib.Round Model.C18 Model.C18_Check Proofs.C18 Proofs.C18_spec Proofs.C18_tempo Proofs.C18_real Proofs.C18_glue Gen.C18_norm Proofs.C18_norm Model.C18_Hist Proofs.C18_hist Model.C18_Loop Proofs.C18_loop.
 Import ListNotations.
 #[local] Open Scope Q_scope.
 
@@ -410,3 +410,58 @@ Theorem history_memo_needs_edit : forall ops s c,
   hrun_memo c s ops = hrun s ops.
 Proof. exact hrun_memo_no_edit_lemma. Qed.
 Print Assumptions history_memo_needs_edit.
+
+(* ---------- round j: decode_time AS WRITTEN (Model/C18_Loop.v: element-wise product, np.cumsum, an array of zeros,
+   one write per cell in the order of the groups, ONE shift after the loop) ---------- *)
+
+(* the array the loop leaves, for ANY list of groups (partition or not) and any cell function: a cell shows the write
+   of the LAST group that lists it, an unlisted cell what the array held before *)
+Theorem decode_loop_last_writer : forall (f : nat -> nat -> row2) G perf j d, (j < List.length perf)%nat ->
+  nth j (loop f 0 G perf) d = match last_writer 0 G j with Some k => f k j | None => nth j perf d end.
+Proof. exact scatter_last_writer_lemma. Qed.
+Print Assumptions decode_loop_last_writer.
+
+(* refinement: for every non-empty score and every partition G of its notes (every result of get_unique_onset_idxs:
+   onset_groups_partition) the code-level decode_time -- cumulative sum, zero array, scatter loop, shift after the
+   loop, index check -- returns, Leibniz-equal, the onset and duration columns of the per-note decoder [decode] that all
+   the round-trip theorems above are about; for ANY parameter rows P and any normalisation.  The variant with the shift
+   indented into the loop (seeded change d) does not: Proofs/C18_loop.v decode_time_shift_inside_refuted; with
+   overlapping groups the loop and the per-note lookup differ: scatter_overlap_refuted *)
+Theorem decode_time_loop_refines :
+  forall (NP : Type) (pmean : list NP -> NP) (rescale : NP -> Q) (npdefault : NP) (exp2 : Q -> Q)
+         (so sd : list Q) (G : list (list nat)) (P : list (params NP)),
+    so <> [] -> groups_ok G (List.length so) = true ->
+    decode_time_loop exp2 so sd G (dec_bps NP pmean rescale npdefault G P) (map (p_timing NP) P) (map (p_art NP) P)
+    = Some (map (fun r => (fst (fst r), snd (fst r))) (decode NP pmean rescale npdefault exp2 so sd G P)).
+Proof. exact decode_time_loop_refines_lemma. Qed.
+Print Assumptions decode_time_loop_refines.
+
+(* the running sum np.cumsum(np.r_[0, diff * beat_period]) is the recursion eq_on of the per-note model at every index *)
+Theorem decode_cumsum_spec : forall ds bps, List.length ds = List.length bps ->
+  forall i, (i <= List.length ds)%nat -> nth i (cumsum (0 :: map2 Qmult ds bps)) 0 = eq_on 0 bps ds i.
+Proof. exact cumsum_eq_on. Qed.
+Print Assumptions decode_cumsum_spec.
+
+(* O1 for decode_time as written: on the encoder's parameters (either built-in curve, any normalisation with a left
+   inverse, any non-empty score with distinct onsets >= 2e-4 beat apart, ANY performance) the array the loop leaves holds
+   every performed onset up to ONE common shift and every performed duration *)
+Theorem decode_time_loop_roundtrip :
+  forall (NP : Type) (scale : Q -> NP) (pmean : list NP -> NP) (rescale : NP -> Q) (npdefault : NP)
+         (log2 exp2 : Q -> Q),
+    (forall x k, 0 < x -> rescale (pmean (repeat (scale x) (S k))) == x) ->
+    (forall x, 0 < x -> exp2 (log2 x) == x) ->
+  forall (method : Z) (so sd po pd : list Q) (vel : list Z),
+    so <> [] -> List.length po = List.length so ->
+    onsets_separated so ->
+    let Ge := enc_groups so in
+    let bp := tempo_curve method (u_onsets so (map2 Qplus so sd) Ge) (u_onsets po (map2 Qplus po pd) Ge) in
+    let P := encode NP scale log2 so sd po pd vel Ge bp in
+    let G := dec_groups so in
+    exists rows,
+      decode_time_loop exp2 so sd G (dec_bps NP pmean rescale npdefault G P) (map (p_timing NP) P) (map (p_art NP) P)
+      = Some rows /\
+      List.length rows = List.length so /\
+      (exists shift : Q, forall j, (j < List.length so)%nat -> fst (nth j rows (0, 0)) == nthQ po j + shift) /\
+      (forall j, (j < List.length so)%nat -> 0 < nthQ sd j -> 0 < nthQ pd j -> snd (nth j rows (0, 0)) == nthQ pd j).
+Proof. exact decode_time_loop_roundtrip_lemma. Qed.
+Print Assumptions decode_time_loop_roundtrip.
